@@ -1176,7 +1176,18 @@ def zero_sign_causes(sub, envf_rec):
                         except Exception:  # noqa: BLE001
                             return "c"
                     return "_"
-                c = f"{s_.kind}({','.join(opnd(x) for x in s_.operands)})->{'operand' if any(r[1] is x for x in s_.operands) else r[1].kind}"
+                # classify by the operands AS REWRITTEN (s_ is minimal: its operands' own rewriting flips nothing, so the flip is the
+                # top rule applied to the rewritten operands); otherwise log(1) + y and -(-y) + 0 would look like new causes
+                def rw(x):
+                    if not isinstance(x, F.Expr):
+                        return x
+                    rr = real_rewrite(x)
+                    return rr[1] if rr[0] == "ok" else x
+                ops_rw = [rw(x) for x in s_.operands]
+                labels = [opnd(x) for x in ops_rw]
+                if s_.kind == "select" and isinstance(ops_rw[0], F.Expr):
+                    labels[0] = ops_rw[0].kind  # which of the select rules fired: (x == y) ? x : y -> y or (x != y) ? x : y -> x
+                c = f"{s_.kind}({','.join(labels)})->{'operand' if any(r[1] is x for x in list(s_.operands) + ops_rw) else r[1].kind}"
                 if c not in causes:
                     causes.append(c)
                 break
